@@ -269,9 +269,53 @@ pub fn san_main() -> i32 {
         println!("leaked memory on purpose");
         return 0;
     }
+    if args.iter().any(|a| a == "--hugecol") {
+        let c = huge_column_cases();
+        println!("XTV-SAN-SUMMARY {}", serde_json::to_string(&c).unwrap());
+        return 0;
+    }
     let c = workload(get("--seed", 0) as u64, get("--shard", 0), get("--of", 1), get("--cases", 10), miri);
     println!("XTV-SAN-SUMMARY {}", serde_json::to_string(&c).unwrap());
     0
+}
+
+/// Yields `spaces` space characters and then `tail`, without ever holding them in memory.
+struct Indented<'a> {
+    spaces: u64,
+    tail: &'a [u8],
+    pos: usize,
+}
+
+impl<'a> std::io::Read for Indented<'a> {
+    fn read(&mut self, buf: &mut [u8]) -> std::io::Result<usize> {
+        if self.spaces > 0 {
+            let n = (buf.len() as u64).min(self.spaces) as usize;
+            buf[..n].fill(b' ');
+            self.spaces -= n as u64;
+            return Ok(n);
+        }
+        let n = buf.len().min(self.tail.len() - self.pos);
+        buf[..n].copy_from_slice(&self.tail[self.pos..self.pos + n]);
+        self.pos += n;
+        Ok(n)
+    }
+}
+
+/// A block key / sequence entry that starts beyond column 2^31 of its line: the parser's column counter
+/// passes what a C int holds, an error path of the C-derived parser that ordinary inputs never take (it
+/// reports a MEMORY error, the one kind of error that comes without a problem string). The line is
+/// generated on the fly; whatever xt answers, it must answer in safe terms.
+fn huge_column_cases() -> std::collections::BTreeMap<String, u64> {
+    let mut c: std::collections::BTreeMap<String, u64> = Default::default();
+    for tail in [&b"a: 1\n"[..], b"- x\n"] {
+        for from in [Some(xt::Format::Yaml), None] {
+            let mut out = Vec::new();
+            let v = guarded(|| xt::translate_reader(Indented { spaces: (1u64 << 31) + 16, tail, pos: 0 }, from, xt::Format::Json, &mut out));
+            *c.entry(format!("huge_column_{}", v.class())).or_insert(0) += 1;
+            *c.entry("huge_column_cases".into()).or_insert(0) += 1;
+        }
+    }
+    c
 }
 
 #[inline(never)]
@@ -403,6 +447,14 @@ pub fn run(ctx: &Ctx) -> i32 {
             c
         })
         .collect();
+    // one more process (assertions on): block entries beyond column 2^31, generated on the fly
+    let mut cmds = cmds;
+    {
+        let mut c = Command::new(&bin);
+        c.args(["workload", "--hugecol"]);
+        c.env("ASAN_OPTIONS", "detect_leaks=1:halt_on_error=1:abort_on_error=0:exitcode=66:allocator_may_return_null=1").env("LSAN_OPTIONS", "exitcode=67");
+        cmds.push(c);
+    }
     let res = run_shards(cmds, &format!("c17-asan-s{}", ctx.seed), &out_dir, if ctx.thorough() { 7200 } else { 900 });
     let mut totals: std::collections::BTreeMap<String, u64> = Default::default();
     for (i, r) in res.iter().enumerate() {
@@ -502,10 +554,10 @@ pub fn run(ctx: &Ctx) -> i32 {
         acc.distinct(&i);
     }
     acc.sample(json!({"asan_shards": shards, "cases_per_shard": cases_per_shard, "miri_cases_per_shard": miri_cases, "example_shard_command": format!("{bin} workload --seed {} --shard 0 --of {shards} --cases {cases_per_shard}", ctx.seed)}));
-    let rule = format!("AddressSanitizer+LeakSanitizer: {} shards x {} corpus inputs (mixed corpus, UTF-16/32 re-encodings, every fifth one a ~45 KiB YAML text with multi-byte characters on every alignment around the 8/16/24/32 KiB read boundaries) each driven as YAML explicit and detected through the public API with read sizes 1..17 / random / whole, reader errors at sampled offsets, over-reporting readers (excess 1..64, first/second/third call) straight into the raw parser and the chunker via the hook and through the public API, readers that panic inside read() or in their destructor, safe readers that look at the buffer's old contents before filling it or report n bytes having stored n-1 (sound only if the buffer handed out is initialised memory; an uninitialised one is a Miri report), a reader that runs a second YAML translation on the same thread from inside read() and then checks that its buffer is unchanged, the same translation on three threads at once (equal results; under Miri also free of data races), early drop of the parser after EVERY event count, chunker abandoned after one document, re-encoder surrogate/range boundary units; Miri: {} shards x {} seed inputs of the same workload; valgrind memcheck on the release binary in the thorough tier; conservation of Parser/Event new vs drop; distinct non-trivial = inputs driven", shards, cases_per_shard, shards, miri_cases);
+    let rule = format!("AddressSanitizer+LeakSanitizer: {} shards x {} corpus inputs (mixed corpus, UTF-16/32 re-encodings, every fifth one a ~45 KiB YAML text with multi-byte characters on every alignment around the 8/16/24/32 KiB read boundaries) each driven as YAML explicit and detected through the public API with read sizes 1..17 / random / whole, reader errors at sampled offsets, over-reporting readers (excess 1..64, first/second/third call) straight into the raw parser and the chunker via the hook and through the public API, readers that panic inside read() or in their destructor, safe readers that look at the buffer's old contents before filling it or report n bytes having stored n-1 (sound only if the buffer handed out is initialised memory; an uninitialised one is a Miri report), a reader that runs a second YAML translation on the same thread from inside read() and then checks that its buffer is unchanged, the same translation on three threads at once (equal results; under Miri also free of data races), early drop of the parser after EVERY event count, chunker abandoned after one document, re-encoder surrogate/range boundary units; one more ASan process with block entries that start beyond column 2^31 of a line generated on the fly (the parser's memory-error path); Miri: {} shards x {} seed inputs of the same workload; valgrind memcheck on the release binary in the thorough tier; conservation of Parser/Event new vs drop; distinct non-trivial = inputs driven", shards, cases_per_shard, shards, miri_cases);
     let mut extra = serde_json::Map::new();
     extra.insert("explanation".into(), json!("sanitizer verdict: zero AddressSanitizer/LeakSanitizer/Miri reports over the executed workload; a clean run says nothing about paths the workload did not reach"));
-    let mut f = Finish { ctx, level: "other", rule, assumptions: vec!["red-zone tools miss intra-object overflows; Miri covers part of that gap on the smaller workload".into(), "panics are an allowed outcome for contract-violating readers and are counted".into()], extra, exhaustive: false, min_distinct: 100, must_reach: vec![("leak_detector_selftest_fired".into(), 1), ("asan_shards_clean".into(), shards as u64), ("miri_shards_clean".into(), shards as u64), ("hit_READ_HANDLER_OVER_REPORT".into(), 10), ("hit_READ_HANDLER_ERROR".into(), 10), ("early_drop_points".into(), 1000), ("inputs_boundary_straddling".into(), 50), ("readers_panicking_in_drop".into(), 100), ("lazy_reader_api_returned".into(), 100), ("nesting_reader_api_returned".into(), 100), ("concurrent_translations".into(), 300)] };
+    let mut f = Finish { ctx, level: "other", rule, assumptions: vec!["red-zone tools miss intra-object overflows; Miri covers part of that gap on the smaller workload".into(), "panics are an allowed outcome for contract-violating readers and are counted".into()], extra, exhaustive: false, min_distinct: 100, must_reach: vec![("leak_detector_selftest_fired".into(), 1), ("asan_shards_clean".into(), shards as u64), ("miri_shards_clean".into(), shards as u64), ("hit_READ_HANDLER_OVER_REPORT".into(), 10), ("hit_READ_HANDLER_ERROR".into(), 10), ("early_drop_points".into(), 1000), ("inputs_boundary_straddling".into(), 50), ("readers_panicking_in_drop".into(), 100), ("lazy_reader_api_returned".into(), 100), ("nesting_reader_api_returned".into(), 100), ("concurrent_translations".into(), 300), ("huge_column_cases".into(), 4)] };
     if !acc.violations.is_empty() {
         f.must_reach.clear();
     }
